@@ -239,11 +239,28 @@ def run_chain(case, obs, plan, forced=False):
         return out
 
     integ.step = step
+    # energies the transition reads: (number of step calls made so far, whether the last one succeeded, value)
+    h_log = []
+    real_h = m.system.h
+
+    def h_hook(state):
+        v = real_h(state)
+        try:
+            h_log.append((len(step_log), bool(step_log) and step_log[-1][0] is None, float(v)))
+        except (TypeError, ValueError):
+            pass
+        return v
+
+    try:
+        m.system.h = h_hook
+    except AttributeError:
+        pass
     outcome = {"escaped": None, "iters": [], "constraint": m.constraint}
     for it in range(T_ITER):
         st.mom = m.system.sample_momentum(st, g)
         start_pos = np.array(st.pos)
         del step_log[:]
+        del h_log[:]
         ctx.in_transition = True
         fired_before = ctx.fired
         try:
@@ -257,7 +274,7 @@ def run_chain(case, obs, plan, forced=False):
         finally:
             ctx.in_transition = False
         fired_now = ctx.fired and not fired_before
-        outcome["iters"].append({"fired": fired_now, "stats": dict(stats), "steps": list(step_log), "start": start_pos,
+        outcome["iters"].append({"fired": fired_now, "stats": dict(stats), "steps": list(step_log), "h_log": list(h_log), "start": start_pos,
                                  "pos": np.array(new_state.pos), "mom": np.array(new_state.mom)})
         st = new_state
     return outcome, ctx
@@ -309,6 +326,20 @@ def judge(obs, case, plan, outcome, label, constraint=None):  # noqa: C901, PLR0
                 obs.violation(f"flag-not-recorded:{flag}:{tkind}", f"{exc} left a step but statistic {flag} is False; {ctxs}")
             if float(stats["accept_stat"]) != 0.0 and flag is not None:
                 obs.violation(f"accept_stat-nonzero-after-failure:{tkind}", f"accept_stat={stats['accept_stat']} although {exc} cut the trajectory; {ctxs}")
+        # a dynamic transition that read a NaN / +inf energy at a state produced by a successful step has met a
+        # divergence ("NaN energy is infinite energy"): it must be recorded in the statistics
+        if tkind in ("multinomial", "slice") and "diverging" in stats:
+            hl = rec.get("h_log") or []
+            init = [v for (n, _ok, v) in hl if n == 0]
+            bad = [v for (n, ok, v) in hl if n > 0 and ok and (np.isnan(v) or v == np.inf)]
+            if hl:
+                obs.count("dynamic_energy_reads_checked", len(hl))
+            if init and np.isfinite(init[0]) and bad:
+                obs.count("non_finite_leaf_energies_seen")
+                if not stats["diverging"]:
+                    obs.violation(f"non-finite-energy-not-recorded-as-divergence:{tkind}",
+                                  f"the transition read energy {bad[0]} at a state returned by a successful step (initial energy {init[0]:.3g}) "
+                                  f"but statistic diverging is False; {ctxs}")
         # converse: a solver-failure flag may only be set by an exception that left a step of *this* transition
         for flag, exc in (("convergence_error", "ConvergenceError"), ("non_reversible_step", "NonReversibleStepError")):
             if stats.get(flag) and exc not in raised:
